@@ -72,7 +72,7 @@ ALL_CHECKS = {
     },
     "C14": {
         "technique": "bounded exhaustive history enumeration + proptest long random histories, stepped against a reference model of the observe registry after every operation",
-        "text": "All operation sequences to depth 5 (quick) / 6 (thorough) over a small alphabet are enumerated and compared step by step with a model; random histories of length up to 200 over larger alphabets.",
+        "text": "All operation sequences to depth 5 (quick) / 6 (thorough) over a small alphabet are enumerated and compared step by step with a model; random histories of length up to 200 over larger alphabets. Run with and without coap-lite's `log` feature (logging arguments evaluated / not evaluated).",
         "note": TB + " The unacknowledged counter is compared directly through a read-only hook when available.",
     },
     "C15": {
